@@ -669,6 +669,7 @@ where stepOp (toks : List String) : String :=
   | "concstreamf" :: _ => "ok"
   | "concsame" :: _ => "ok"
   | "minv" :: args => opMinv args
+  | "msub" :: args => opMsub args
   | "bmat" :: args => opBmat args
   | "fn" :: args => opFn args
   | "sencode" :: args => opSEncode args
